@@ -1,6 +1,6 @@
 """C04 — counter / gauge / histogram handles over AtomicU64: sequential differential cases against the Coq
 model (bit-exact, NaN results as "is NaN"), IntoF64 conversions against an independent computation,
-and free-running stress on shared handle clones judged by the closed forms the theorems justify."""
+and free-running stress + barrier-released rounds on shared handle clones judged by the closed forms the theorems justify."""
 import struct
 
 from . import core
